@@ -107,9 +107,6 @@ func (w *World) observe() (snap *snapshot) {
 	if w.alloc != nil && !w.poisoned {
 		for s := range w.sinfo {
 			si := &w.sinfo[s]
-			if !si.everUsed {
-				continue
-			}
 			info := vam.VerifAllocationInfo(&w.slots[s])
 			switch {
 			case si.live && !info.Allocated:
